@@ -20,6 +20,7 @@ CONSTANTS
   HandlerIds = {}
   Kinds = {"sgn", "path", "pid"}
   Keys = {1}
+  BadKeys = {}
   SrcOpts <- Opts_os
   EvKinds = {"sgn", "path", "pid"}
   MaxBatch = 2
